@@ -28,8 +28,20 @@ type stats struct {
 var st = stats{Ops: map[string]int{}, Physical: map[string]int{}}
 
 // keys: two families; family 1 keys have two segments (1-byte id), family 2 keys three segments (1-byte group, 2-byte id):
-// every stored key has a fixed shape per family, so the key set is prefix-free, while prefixes of different depth exist
+// a third family stores the group key itself (two segments) and the family key (one segment): keys that are proper prefixes of
+// other keys and equal to iteration prefixes
+// nested: the key family includes keys that are proper prefixes of other keys (streams "nested-latest" and the witness of the
+// known finding); historical: read-at-version operations are generated
+var nested, historical, commits = false, true, true
+
 func genKey(r *sim.Rng) []byte {
+	if nested && r.Chance(14) {
+		// a stored key that is itself the iteration prefix of other stored keys (a group record above its members)
+		if r.Chance(30) {
+			return lib.JoinLenPrefix([]byte{2})
+		}
+		return lib.JoinLenPrefix([]byte{2}, []byte{byte(r.Intn(3))})
+	}
 	if r.Chance(50) {
 		return lib.JoinLenPrefix([]byte{1}, []byte{byte(r.Intn(6))})
 	}
@@ -168,7 +180,7 @@ func runProgram(r *sim.Rng, nOps int) (ops []string, outs []string) {
 				emit("PDiscard", "OUnit")
 			}
 		case c < 86:
-			if len(stack) == 1 {
+			if len(stack) == 1 && commits {
 				if _, e := s.Commit(); e != nil {
 					fail("PCommit", e)
 					continue
@@ -184,7 +196,7 @@ func runProgram(r *sim.Rng, nOps int) (ops []string, outs []string) {
 				emit("PReset", "OUnit")
 			}
 		case c < 97:
-			if version >= 1 {
+			if version >= 1 && historical {
 				v := 1 + uint64(r.Intn(int(version)))
 				ro, e := s.NewReadOnly(v)
 				if e != nil {
@@ -275,6 +287,42 @@ func main() {
 			}
 			st.Samples = append(st.Samples, s)
 		}
+	}
+	// ---- key families in which a key is a proper prefix of other keys (a record stored at the very prefix its members are
+	// iterated by), in the write-set stack (nested transactions over the store's own write set, nothing committed): must behave
+	// as the map. Once such keys are committed the versioned iterator loses entries: the known finding, see the witnesses below.
+	nested, historical, commits = true, false, false
+	for p := 0; p < *nProg/3; p++ {
+		ops, outs := runProgram(r.Fork(), *nOps)
+		cw.Add(fmt.Sprintf("mkSt %s %s", sim.CoqList(ops), sim.CoqList(outs)), map[string]any{"kind": "program-nested-keys-latest", "ops": strings.Join(ops, "; "), "outs": strings.Join(outs, "; ")})
+		st.Cases++
+		st.Ops["program-nested-keys"]++
+	}
+	// ---- the witness of the known finding (KNOWN_FINDINGS.txt versioned-iteration-nested-keys): reverse iteration of a committed
+	// version by a prefix that is itself a stored key (and forward iteration of the latest state). Listed under that finding id only; everything else is reported as new.
+	{
+		sti, err := store.NewStoreInMemory(lib.NewNullLogger())
+		if err != nil {
+			panic(err)
+		}
+		s := sti.(*store.Store)
+		grp := lib.JoinLenPrefix([]byte{2})
+		k1 := lib.JoinLenPrefix([]byte{2}, []byte{1}, []byte{0, 0})
+		k2 := lib.JoinLenPrefix([]byte{2}, []byte{2}, []byte{1, 255})
+		var ops, outs []string
+		for _, kv := range [][2][]byte{{grp, {9}}, {k1, {7}}, {k2, {8}}} {
+			_ = s.Set(kv[0], kv[1])
+			ops, outs = append(ops, fmt.Sprintf("PSet %s %s", sim.CoqBytes(kv[0]), sim.CoqBytes(kv[1]))), append(outs, "OUnit")
+		}
+		_, _ = s.Commit()
+		ops, outs = append(ops, "PCommit"), append(outs, fmt.Sprintf("OVer %d", s.Version()))
+		ops, outs = append(ops, fmt.Sprintf("PIter %s false", sim.CoqBytes(grp))), append(outs, collect(s.Iterator(grp)))
+		ro, _ := s.NewReadOnly(1)
+		ops, outs = append(ops, fmt.Sprintf("PIterAt 1 %s true", sim.CoqBytes(grp))), append(outs, collect(ro.RevIterator(grp)))
+		ro.Discard()
+		s.Close()
+		cw.Add(fmt.Sprintf("mkSt %s %s", sim.CoqList(ops), sim.CoqList(outs)), map[string]any{"kind": "witness-nested-keys-historical", "finding": "versioned-iteration-nested-keys", "ops": strings.Join(ops, "; "), "outs": strings.Join(outs, "; ")})
+		st.Cases++
 	}
 	cw.Close(st)
 	fmt.Printf("c10: %d programs (%d distinct non-trivial), ops %v, physical %v\n", st.Cases, st.Distinct, st.Ops, st.Physical)
